@@ -834,6 +834,7 @@ func handMade() map[gopacket.LayerType][][]byte {
 		// skip count, then forward-data (to a MAC) wrapping a reply (receipt number + data)
 		layers.LayerTypeEthernetCTP: {{0, 0, 2, 0, 0xaa, 0xbb, 0xcc, 0xdd, 0xee, 0xff, 1, 0, 0x12, 0x34, 0xde, 0xad, 0xbe, 0xef}, {0, 0, 1, 0, 0x12, 0x34, 0xde, 0xad, 0xbe, 0xef}},
 		layers.LayerTypePktap:       {pktap},
+		layers.LayerTypeDNS:         dnsZoo(),
 		// solicit: client id (DUID-LLT), option request, elapsed time, IA_NA, server id (DUID-LL)
 		layers.LayerTypeDHCPv6: {
 			{1, 0x57, 0x19, 0x58, 0, 1, 0, 14, 0, 1, 0, 1, 0x1c, 0x38, 0x26, 0x2d, 8, 0, 0x27, 0xfe, 0x8f, 0x95, 0, 6, 0, 4, 0, 23, 0, 24, 0, 8, 0, 2, 0, 0,
@@ -928,4 +929,58 @@ func (c *Corpus) ByteSweep(seed []byte, maxPos int) (out [][]byte) {
 		}
 	}
 	return
+}
+
+// dnsZoo builds DNS responses that carry one record of every type the decoder knows (the fixtures have A/AAAA/CNAME/TXT/
+// OPT at most): names are written without compression.
+func dnsZoo() [][]byte {
+	name := func(labels ...string) []byte {
+		var b []byte
+		for _, l := range labels {
+			b = append(b, byte(len(l)))
+			b = append(b, l...)
+		}
+		return append(b, 0)
+	}
+	u16 := func(v int) []byte { return []byte{byte(v >> 8), byte(v)} }
+	u32 := func(v uint32) []byte { return []byte{byte(v >> 24), byte(v >> 16), byte(v >> 8), byte(v)} }
+	cat := func(parts ...[]byte) []byte {
+		var b []byte
+		for _, p := range parts {
+			b = append(b, p...)
+		}
+		return b
+	}
+	cs := func(s string) []byte { return append([]byte{byte(len(s))}, s...) }
+	rr := func(owner []byte, typ, class int, ttl uint32, rdata []byte) []byte {
+		return cat(owner, u16(typ), u16(class), u32(ttl), u16(len(rdata)), rdata)
+	}
+	ex := name("example", "com")
+	www := name("www", "example", "com")
+	msg := func(id int, q []byte, an, ns, ar [][]byte) []byte {
+		b := cat(u16(id), []byte{0x85, 0x80}, u16(1), u16(len(an)), u16(len(ns)), u16(len(ar)), q)
+		for _, sec := range [][][]byte{an, ns, ar} {
+			for _, r := range sec {
+				b = append(b, r...)
+			}
+		}
+		return b
+	}
+	q := cat(www, u16(255), u16(1))
+	svc := cat(u16(1), name("svc", "example", "com"), u16(1), u16(3), []byte{2, 'h', '2'}, u16(3), u16(2), u16(8443), u16(4), u16(4), []byte{192, 0, 2, 1})
+	sig := cat(u16(1), []byte{13, 3}, u32(300), u32(1800000000), u32(1700000000), u16(12345), ex, []byte{1, 2, 3, 4, 5, 6, 7, 8, 9, 10, 11, 12, 13, 14, 15, 16})
+	one := msg(0x1234, q,
+		[][]byte{rr(www, 1, 1, 300, []byte{192, 0, 2, 7}), rr(www, 28, 1, 300, []byte{0x20, 1, 0xd, 0xb8, 0, 0, 0, 0, 0, 0, 0, 0, 0, 0, 0, 1}),
+			rr(www, 16, 1, 60, cat(cs("hello"), cs("abc"))), rr(www, 5, 1, 60, name("web", "example", "net")), rr(www, 46, 1, 300, sig)},
+		[][]byte{rr(ex, 2, 1, 3600, name("ns1", "example", "com")), rr(ex, 6, 1, 3600, cat(name("ns1", "example", "com"), name("host\\.master", "example", "com"), u32(2024010101), u32(7200), u32(900), u32(1209600), u32(300)))},
+		[][]byte{rr(ex, 15, 1, 300, cat(u16(10), name("mail", "example", "com"))), rr([]byte{0}, 41, 4096, 0, cat(u16(10), u16(8), []byte{1, 2, 3, 4, 5, 6, 7, 8}))})
+	two := msg(0x4321, cat(ex, u16(255), u16(1)),
+		[][]byte{rr(name("_sip", "_udp", "example", "com"), 33, 1, 300, cat(u16(10), u16(60), u16(5060), name("sip", "example", "com"))),
+			rr(ex, 35, 1, 300, cat(u16(100), u16(10), cs("u"), cs("E2U+sip"), cs("!^.*$!sip:info@example.com!"), []byte{0})),
+			rr(ex, 256, 1, 300, cat(u16(10), u16(1), []byte("https://example.com/path"))),
+			rr(ex, 48, 1, 300, cat(u16(257), []byte{3, 13}, []byte{9, 8, 7, 6, 5, 4, 3, 2, 1, 0, 1, 2, 3, 4, 5, 6})),
+			rr(ex, 65, 1, 300, svc), rr(ex, 64, 1, 300, cat(u16(0), name("alias", "example", "com")))},
+		[][]byte{rr(name("7", "2", "0", "192", "in-addr", "arpa"), 12, 1, 300, www), rr(ex, 13, 1, 300, cat(cs("PDP-11"), cs("UNIX")))},
+		nil)
+	return [][]byte{one, two}
 }
